@@ -109,9 +109,13 @@ def c05_1(R):
     if rl is None:
         return
     defs = stq.all_defs(rl)
-    init = [d for d in defs if isinstance(d, Term) and d.kind == "call"]
+    init = [d for d in defs if not (isinstance(d, Stmt) and local_update(stq, d))]
     R.require(len(init) == 1, "one initialisation of the send budget")
     init = init[0]
+    if isinstance(init, Stmt) and init.rv.kind == "use":
+        t0 = trace(stq, init.rv.ops[0])
+        R.require(t0.kind == "call" and not t0.fields, "the send budget is initialised from a call")
+        init = t0.root[1]
     ib = stq
     for _ in range(3):
         # the initialiser may live in a private helper of the socket: follow its returned call
